@@ -11,6 +11,8 @@ package main
 // over the SAME fake clientset (same object tracker).
 
 import (
+	goruntime "runtime"
+
 	"context"
 	"encoding/json"
 	"fmt"
@@ -144,8 +146,9 @@ type rig struct {
 	pending string // fault the reactor has to produce for the call being made
 	calls   int
 
-	inFlush bool
-	inInter bool
+	inFlush   bool
+	flushGoid uint64 // the goroutine that runs the flush: only its Update calls define the flush order
+	crashed   bool   // a crash was injected: calls of other goroutines must not reach the API any more
 	seen    map[[2]string]bool
 	ord     [][2]string
 	inter   map[[2]string]int // key -> index into curInter
@@ -176,8 +179,48 @@ func (w wrapProxy) RateLimitConditions() typedv1alpha1.RateLimitConditionInterfa
 	return wrapConds{w.ProxyV1alpha1Interface.RateLimitConditions(), w.r}
 }
 
+// goid returns the id of the calling goroutine (parsed from its stack header).
+func goid() uint64 {
+	buf := make([]byte, 64)
+	buf = buf[:goruntime.Stack(buf, false)]
+	// "goroutine 123 [running]:"
+	var id uint64
+	for _, c := range buf[len("goroutine "):] {
+		if c < '0' || c > '9' {
+			break
+		}
+		id = id*10 + uint64(c-'0')
+	}
+	return id
+}
+
+// parkedOnMutex reports whether goroutine gid is blocked in sync.Mutex.Lock (its wait reason in the
+// runtime's goroutine dump).  While a flush runs, the only mutex anybody holds is the store mutex.
+func parkedOnMutex(gid uint64) bool {
+	buf := make([]byte, 1<<16)
+	for {
+		n := goruntime.Stack(buf, true)
+		if n < len(buf) {
+			buf = buf[:n]
+			break
+		}
+		buf = make([]byte, 2*len(buf))
+	}
+	head := fmt.Sprintf("goroutine %d [", gid)
+	i := strings.Index(string(buf), head)
+	if i < 0 {
+		return false
+	}
+	rest := string(buf[i+len(head):])
+	return strings.HasPrefix(rest, "sync.Mutex.Lock")
+}
+
 // arm pops the next outcome for name and prepares the reactor; panics on "crash".
 func (r *rig) arm(name string) {
+	if r.crashed {
+		// the process is dead: an operation that was waiting for the mutex never gets to the API
+		panic(crashSentinel{})
+	}
 	r.calls++
 	o := "ok"
 	if q := r.plan[name]; len(q) > 0 {
@@ -185,6 +228,7 @@ func (r *rig) arm(name string) {
 		r.plan[name] = q[1:]
 	}
 	if o == "crash" {
+		r.crashed = true
 		panic(crashSentinel{})
 	}
 	if o == "ok" {
@@ -200,7 +244,7 @@ func (w wrapConds) Update(ctx context.Context, c *proxyv1alpha1.RateLimitConditi
 		return w.RateLimitConditionInterface.Update(ctx, c, opts)
 	}
 	r := w.r
-	if r.inFlush && !r.inInter {
+	if r.inFlush && goid() == r.flushGoid {
 		k := [2]string{c.Spec.UpstreamCluster, c.Name}
 		if !r.seen[k] {
 			r.seen[k] = true
@@ -317,15 +361,18 @@ func (r *rig) doFop(f jFop, rec *[]string) string {
 }
 
 // runInter: the operations another goroutine issues while the flush is about to write item idx.
+// Each one runs in its own goroutine; the flush goroutine waits until that goroutine has either
+// finished or is parked on the store mutex (observed in the runtime's goroutine dump, no timers).
 func (r *rig) runInter(idx int) {
 	ops := r.curOp.Inter[idx].Ops
 	for j, f := range ops {
 		done := make(chan string, 1)
+		gidCh := make(chan uint64, 1)
 		rec := &[]string{}
 		f := f
 		jj := j
-		r.inInter = true
 		go func() {
+			gidCh <- goid()
 			res := r.doFop(f, rec)
 			if f.Op == "delup" {
 				names := []B{}
@@ -337,23 +384,35 @@ func (r *rig) runInter(idx int) {
 			r.iobs[idx][jj].Res = res
 			done <- res
 		}()
-		select {
-		case res := <-done:
-			r.inInter = false
-			r.ires = append(r.ires, res)
-			if res == "crash" {
-				panic(crashSentinel{})
+		gid := <-gidCh
+		deadline := time.Now().Add(120 * time.Second)
+	wait:
+		for {
+			select {
+			case res := <-done:
+				r.ires = append(r.ires, res)
+				if res == "crash" {
+					panic(crashSentinel{})
+				}
+				break wait
+			default:
 			}
-		case <-time.After(150 * time.Millisecond):
-			// blocked on the store mutex: it will run once the flush has returned
-			r.inInter = false
-			r.waiting = append(r.waiting, done)
+			if parkedOnMutex(gid) {
+				// blocked on the store mutex: it will run once the flush has returned
+				r.waiting = append(r.waiting, done)
+				break wait
+			}
+			if time.Now().After(deadline) {
+				panic("interleaved operation neither finished nor parked")
+			}
+			time.Sleep(50 * time.Microsecond)
 		}
 	}
 }
 
 func (r *rig) flushLike(op *jOp, call func() error) (string, []string) {
-	r.inFlush, r.inInter = true, false
+	r.inFlush = true
+	r.flushGoid = goid()
 	r.seen = map[[2]string]bool{}
 	r.ord = nil
 	r.inter = map[[2]string]int{}
@@ -370,9 +429,10 @@ func (r *rig) flushLike(op *jOp, call func() error) (string, []string) {
 	}
 	res := guarded(call)
 	r.inFlush = false
-	if res != "crash" {
-		for _, ch := range r.waiting {
-			x := <-ch
+	// operations that waited for the mutex run now (after a crash they find the process dead)
+	for _, ch := range r.waiting {
+		x := <-ch
+		if res != "crash" {
 			r.ires = append(r.ires, x)
 			if x == "crash" {
 				res = "crash"
@@ -430,6 +490,8 @@ func runC19(raw json.RawMessage) interface{} {
 			r.plan[p.Name.S()] = append([]string{}, p.Q...)
 		}
 		r.calls = 0
+		r.crashed = false
+		r.ord = nil
 		r.pending = ""
 		r.delRec = nil
 		r.inFlush = false
